@@ -39,6 +39,33 @@ CHECKS = {
     "C09": ("exploration", "differential runtime monitoring on EIP-7702 authorisation sequences (set, re-point, clear, repeated/invalid authorisations, pre-delegated accounts) and in-block deployments interleaved with calls and EXTCODE* probes",
             "Outcomes, per-step deltas and bundle are compared with in-order stock revm on Prague/Osaka authorisation workloads and on deployment workloads for all forks, under directors that hold readers between the Basic and Code publications. Held on the executions observed.",
             "DESIGN.md §4 C09"),
+    "C06": ("exploration", "relational runtime monitoring: per block an orbit of configurations (workers 1..16, min_parallel_txs 0/n/n+1, force_sequential, execute / parallel_execute / fallback_sequential, perturbation profiles) for each of the four policy combinations; all runs of an orbit must agree on result, failing index, outcomes, bundle and read-back; with the policy inert additionally anchored to stock revm",
+            "Determinism is checked as pairwise equality across an orbit of runs of the same block (8 configurations per orbit); with the delegated-account policies enabled stock revm is not a reference, so agreement between the parallel path, the sequential path and the replay path is the oracle. Held on the orbits observed.",
+            "DESIGN.md §4 C06"),
+    "C10": ("exploration", "history + executable model (revm State): (a) the same stock EVM over State and over ParallelState interleaved with increments, drains, merges and bundle extractions over 1-4 blocks, comparing transitions, bundles and Database-interface reads after every operation; (b) reader threads filling the cache through the production view while the production commit handle applies real journal output (held at the fetch->insert window); (c) two consecutive blocks through the scheduler on one ParallelState",
+            "ParallelState is driven by the same histories as revm's State and compared after every step; the concurrent part uses the production split view/commit handles under delays in the fetch->insert and status->clear windows. Held on the histories observed.",
+            "DESIGN.md §4 C10"),
+    "C11": ("exploration", "differential runtime monitoring with test precompiles built on the public facade (reads + data-dependent writes, read-only, static mutator that ignores facade errors, state-dependent fatal) installed both in grevm and, through the same adapters, in the in-order stock-revm reference; in-attempt read consistency counters inside the precompiles",
+            "Outcomes, per-step deltas and bundle of blocks that call the test precompiles (directly, nested, via STATICCALL, in reverting frames) are compared with the in-order run using the same adapters; counters inside the precompiles check repeated reads and read-your-writes within an attempt. Held on the executions observed.",
+            "DESIGN.md §4 C11"),
+    "C12": ("exploration", "differential runtime monitoring against two stock-revm oracles: an inspector that only watches create opcodes (no delegated-context create => guard-on must be bit-identical to stock) and an inspector that enforces the rule on stock revm at the opcode (halts the frame as not-activated); all forks, guard on/off",
+            "The guard is compared with an independent ten-line statement of the rule executed on stock revm (inspector halting CREATE/CREATE2 in a delegated context) and with unmodified stock revm when no such create occurs. Held on the executions observed.",
+            "DESIGN.md §4 C12"),
+    "C13": ("exploration", "runtime monitoring of policy invariants: (i) agreement of parallel/sequential/replay paths (C06 orbit), (ii) end-to-end invariant 'a sender whose block-start balance covers all its transactions is never skipped for lack of funds', (iii) an independent re-statement of the rule on stock revm (inspector recording surviving value-moving operations and the payer's balance before each) judged transaction by transaction up to the first violation",
+            "Stock revm is not a full reference once the policy fires, so the oracle is layered: invariants over whole blocks plus a step-wise comparison that is exact up to and including the first transaction the rule turns into a charged revert. Held on the executions observed.",
+            "DESIGN.md §4 C13"),
+    "C14": ("exploration", "client-boundary history checking: 2-6 threads call execute / parallel_execute / fallback_sequential on one scheduler (some behind a barrier, some after the first return); exactly one call may run the block, the once-only gate may be passed once, final outcomes/bundle must equal the in-order run, a never-executed scheduler must return nothing",
+            "Histories of entry-point calls are recorded at the client boundary and checked for exactly-one-winner and for equality of the final result with a single in-order execution. Held on the histories observed.",
+            "DESIGN.md §4 C14"),
+    "C15": ("exploration", "history checking of the production cursors through the verif facade: linearizability of claim/rewind against a 10-line sequential cursor, re-offer of every rewound index, limit respect, frontier never passing an unpublished index and catching up at quiescence; plus the TS trace monitor on whole-scheduler runs (Miri lane adds weak-memory executions)",
+            "The production functions (not copies) are driven by 2-4 claimers, 1-2 rewinders, 1-3 publishers and a frontier reader; histories are small (<=40 operations) and checked exactly. Interleavings are sampled; weak-memory reorderings only in the Miri lane.",
+            "DESIGN.md §4 C15"),
+    "C16": ("exploration", "bounded-progress and exactly-once monitoring of the production dependency graph driven by a protocol-faithful mini scheduler (per-tx status under a lock, scripted conflicts/errors/validation failures, commit thread), plus whole-scheduler stall detection on dependency-heavy blocks",
+            "Every scripted run must commit all transactions without a stable no-progress state, and no transaction may be handed out twice without being re-armed. Held on the schedules observed.",
+            "DESIGN.md §4 C16"),
+    "C17": ("exploration", "lost-wake-up detection on the production wait slot with timeout-free parks (a lost notification is a stable hang), notifications issued before registration, between check and park, and while parked; plus whole-scheduler stall detection with directors holding producers around publish/notify",
+            "A waiter must return once all publications have been notified; whole-scheduler runs check the producer-side discipline (publish before notify). Held on the schedules observed.",
+            "DESIGN.md §4 C17"),
 }
 
 NOT_YET = {
